@@ -261,6 +261,11 @@ func (ex *Exec) concretize(st *State, t *Term, limit int) int64 {
 	for {
 		r, m, _ := ex.Feas.Check(pc, ex.FeasTimeout, []*Term{t})
 		ex.Stats.FeasQueries++
+		if r == Unknown {
+			// under load a 5 s cap can be missed: retry once with a generous cap
+			r, m, _ = ex.Feas.Check(pc, 12*ex.FeasTimeout, []*Term{t})
+			ex.Stats.FeasQueries++
+		}
 		if r == Unsat {
 			break
 		}
